@@ -65,6 +65,42 @@ CLAIMED = {
          'against live CaselessDict, Parameters and Component objects (all sequences <= 2, sampled 3, random 30-step); '
          'str.upper idempotence (checked exhaustively each run).',
          'DESIGN.md 6/C17'),
+ 'C10': ('Lean 4 proof (mutual structural induction over the tree; permutation invariance of the sorts) + differential correspondence + subprocess hash-seed runs',
+         'Theorems for every tree: with sorting on, the bytes are invariant under every permutation of the insertion '
+         'order of distinct properties (at every depth) and of parameters, while values of one name and subcomponents '
+         'keep their order (toIcal_insertion_order_free, params_perm, items_sorted_order); with sorting off the items '
+         'are exactly in insertion order; the item sequence is a balanced, properly nested BEGIN/END sequence for trees '
+         'without a property named BEGIN/END (recorded finding + decide witness); add_missing_timezones is independent '
+         'of the enumeration order of the missing-id set. canonical_order tables are regenerated from cal.py each run. '
+         'Idempotence/purity are structural in the model (the serialiser is a function returning text) and are checked '
+         'on the implementation by the oracle (bytes twice, tree before/after) and by subprocess runs under different '
+         'PYTHONHASHSEED values.',
+         'Trusted: Lean kernel; tools/extract.py; hand model of property_items / content_line / to_ical tied by '
+         'correspondence on fixtures and generated trees (sorted on and off); the class of a component is taken from its '
+         'name through ComponentFactory; the interpreter\'s hashing itself is not modelled.',
+         'DESIGN.md 6/C10'),
+ 'C20': ('Lean 4 proof (mutual structural induction; completeness of the greedy matching) + differential correspondence',
+         'Theorems for every tree: walk is the pre-order, visits every position exactly once, and with a name/predicate '
+         'is the filter of the pre-order (name matched through upper-casing); events/todos/timezones are the filters by '
+         'kind; component equality (with value equality abstract, assumed an equivalence) is reflexive, symmetric, '
+         'transitive, invariant under permutation of subcomponents and of property insertion order, and false whenever '
+         'the kind, a property value, the number or the multiset of subcomponents differs (eq_multiset: equality iff '
+         'names equal, property maps equal and the subcomponent lists match one-to-one). Non-components, key case and '
+         'copy mechanics (deepcopy, pickle, reparse) are decided by the oracle on the implementation.',
+         'Trusted: Lean kernel; hand models of _walk and __eq__ tied by correspondence (generated trees, permutations, '
+         'perturbations, both providers); value equality instantiated structurally in the driver and validated by '
+         'correspondence; pickle/deepcopy are interpreter mechanisms checked by the oracle only.',
+         'DESIGN.md 6/C20'),
+ 'C18': ('Lean 4 proof (structural induction over the tree; counting) + differential correspondence',
+         'Theorems for every calendar tree: the used set is exactly the TZID parameters of every value of every '
+         'property of every nested component (every element of a multi-valued parameter); missing = used minus the '
+         'VTIMEZONE names present, total (never an error); after add-missing every used, known, previously absent id '
+         'has exactly one VTIMEZONE, present ones are untouched, unknown ids stay missing, the used set is unchanged, and '
+         'a second call changes nothing. Provider knowledge is an abstract predicate.',
+         'Trusted: Lean kernel; hand models of get_used_tzids / get_missing_tzids / add_missing_timezones tied by '
+         'correspondence (calendars with used, unused, unknown, duplicate and TZID-less VTIMEZONEs, repeated calls); the '
+         'content of a generated VTIMEZONE is C13.',
+         'DESIGN.md 6/C18'),
  'C16': ('Lean 4 proof (invariant by induction over setter/deleter histories; case analysis of the getters) + differential correspondence',
          'Theorems for every history and every stored state: after any sequence of setter/deleter calls never both the '
          'end property and DURATION; whenever start and end are defined end = start + DURATION, = start + 1 day for a '
